@@ -15,7 +15,8 @@ RULE = (
     "entries over every colour spelling, ~60% needing a fix (pairs constructed below a threshold), plus invalid entries whose text "
     "or background is G-junk; x mode x very_readable. Oracle per entry: same colour as a fresh ColorPair(...).make_readable, "
     "status = O-WCAG label of (O-CSS(result), background) at that text size; invalid entries returned unchanged and never "
-    "labelled readable; metamorphic: bulk(xs)[i] == bulk([xs[i]])[0] and bulk(perm(xs)) == perm(bulk(xs)). Non-trivial: lists "
+    "labelled readable; an enumerated sub-check feeds every grey x grey pair whose ratio lies within 0.006 below a label threshold "
+    "(returned unchanged, so the status sits a hair below the next label); metamorphic: bulk(xs)[i] == bulk([xs[i]])[0] and bulk(perm(xs)) == perm(bulk(xs)). Non-trivial: lists "
     "mixing >=1 invalid entry with >=1 entry that needed fixing, or mixing 2- and 3-element entries; distinct by list."
 )
 ASSUMPTIONS = ["validity of an entry is what ColorPair(text, bg).is_valid says (acceptance itself is C07/C14)", "O-WCAG / O-CSS for the status label"]
@@ -94,7 +95,7 @@ def judge(case):
             raise Violation("order-dependent", f"bulk over permutation {perm} of {entries!r} gives {pout!r}, expected {want!r}")
     arities = {len(e) for e in entries}
     nt = None
-    if (n_invalid >= 1 and n_fixed >= 1) or len(arities) == 2:
+    if (n_invalid >= 1 and n_fixed >= 1) or len(arities) == 2 or case.get("band"):
         nt = str(case["entries"]) + str((mode, very))
     return {"nt": nt, "cls": [f"len:{len(entries)}", f"invalid:{min(n_invalid, 3)}", f"fixed:{min(n_fixed, 3)}", "mixed-arity" if len(arities) == 2 else "one-arity"],
             "sample": {"entries": case["entries"], "mode": mode, "very": very, "out": [[r[0] if isinstance(r[0], (str, type(None))) else str(r[0]), r[1]] for r in out]}}
@@ -142,6 +143,27 @@ def strategy(draw):
     return case
 
 
+def band_items(shard, nshards):
+    """Entries whose (untouched) result sits a hair BELOW a label threshold: all grey x grey pairs with a ratio in
+    [thr - 0.006, thr) for thr 4.5 (large text) and 7.0 (normal text), where the pair already meets the requested minimum
+    and is therefore returned unchanged. A label computed from a rounded ratio shows up exactly here."""
+    out = []
+    k = 0
+    for x in range(256):
+        for y in range(256):
+            r = ow.ratio((x, x, x), (y, y, y))
+            for thr, large in ((4.5, True), (7.0, False)):
+                if thr - 0.006 <= r < thr:
+                    k += 1
+                    if k % nshards == shard:
+                        for spell in (lambda v: gc.enc((v, v, v)), lambda v: f"#{v:02x}{v:02x}{v:02x}", lambda v: f"rgb({v}, {v}, {v})"):
+                            out.append({"entries": [{"t": spell(x), "b": spell(y), "large": large}], "mode": 1, "very": False, "band": True})
+    return out
+
+
 def subchecks(tier):
     q = tier == "quick"
-    return [Hyp("bulk-is-a-map", strategy, judge, examples=1600 if q else 40000)]
+    from vlib.runner import Enum
+
+    return [Hyp("bulk-is-a-map", strategy, judge, examples=1600 if q else 40000),
+            Enum("status-just-below-label-thresholds", judge=judge, items=band_items, exhaustive=True)]
